@@ -162,6 +162,17 @@ func runC24(c *an.Ctx) {
 				}
 				mk, ok := res.(*ssa.MakeSlice)
 				if !ok {
+					// built with append: every appended element is a decoded value
+					_, elems, why := c44SliceBuild(res)
+					if why == "" && len(elems) > 0 {
+						for _, e := range elems {
+							nOut++
+							ok2, why2 := c24Decoded(fn, e, r, "base")
+							c.Check(ok2, "O1", "R-TAINT", name, "returned-strings<=decode(base(Entry.Key))", r.Pos(),
+								"returned values are decoded value components", "Search returns a string that is not decode(base(Entry.Key)) on the nil edge ("+why2+")")
+						}
+						continue
+					}
 					nOut++
 					c.Bad("O1", "R-TAINT", name, "returned-strings<=decode", r.Pos(), "a []string is returned that is not a slice filled from decode results in this function: "+an.PathOf(res))
 					continue
